@@ -277,3 +277,68 @@ def export_ir(obj, depth=0, out=None):
             out.append(f'{depth + 1} .{name}')
             export_ir(v, depth + 2, out)
     return out
+
+
+# --------------------------------------------------------------------------------- construct names (C02)
+# A small deterministic universe of NAMED constructs, one module per variant (so that a failure names its variant):
+#   named IF with 0..3 ELSE IF branches, with / without ELSE, in four contexts (plain, inside a named DO, inside a CASE
+#   of a named SELECT, inside an ELSE IF branch of another named IF);
+#   named DO / DO WHILE / DO (forever) with EXIT / CYCLE, nested named loops; named SELECT CASE; named ASSOCIATE; named
+#   WHERE; deeper nestings of all of them.
+# `probe` variants use EXIT <name> / CYCLE <name> and BLOCK: the FP frontend may reject them (counted, not judged).
+def _named_if(name, nelif, has_else, ind, rng, stmt='k = k + {}'):
+    pad = ' ' * ind
+    conds = ['k > {}'.format(rng.randint(1, 9)), 'n < k + {}'.format(rng.randint(1, 5)), 'f .and. k /= {}'.format(rng.randint(0, 3)),
+             '.not. f', 'mod(k, {}) == 0'.format(rng.randint(2, 5))]
+    rng.shuffle(conds)
+    L = [f'{pad}{name}: if ({conds[0]}) then', pad + '  ' + stmt.format(1)]
+    for b in range(nelif):
+        L += [f'{pad}else if ({conds[b + 1]}) then {name}', pad + '  ' + stmt.format(b + 2)]
+    if has_else:
+        L += [f'{pad}else {name}', pad + '  ' + stmt.format(9)]
+    L += [f'{pad}end if {name}']
+    return L
+
+
+def _wrap_module(tag, body, decl=('integer :: i, j, l', 'integer, intent(inout) :: k, n, a(3)', 'logical, intent(in) :: f')):
+    L = ['module nmod', '  implicit none', 'contains', '  subroutine kernel(k, n, a, f)'] + ['    ' + d for d in decl]
+    L += ['    ' + b for b in body] + ['  end subroutine kernel', 'end module nmod', '']
+    return tag, '\n'.join(L)
+
+
+def named_construct_texts(rng, rounds=1):
+    """[(tag, text)] -- tags are the normal forms used in violation keys and in the vacuity guard."""
+    out = []
+    for r in range(rounds):
+        for nelif in range(4):
+            for has_else in (False, True):
+                tag = f'named-if:elseif={nelif}:else={int(has_else)}'
+                core_ = _named_if('chk', nelif, has_else, 0, rng)
+                out.append(_wrap_module(tag + ':plain', core_))
+                out.append(_wrap_module(tag + ':in-named-do',
+                                        ['lp: do i = 1, n'] + ['  ' + x for x in core_] + ['  if (k > 20) exit', 'end do lp']))
+                out.append(_wrap_module(tag + ':in-named-select',
+                                        ['sel: select case (n)', 'case (1) sel'] + ['  ' + x for x in core_] + ['case default sel', '  k = 0', 'end select sel']))
+                outer = _named_if('outer', 2, True, 0, rng, stmt='n = n + {}')
+                at = outer.index(next(x for x in outer if x.startswith('else if'))) + 2
+                out.append(_wrap_module(tag + ':in-named-if-branch', outer[:at] + ['  ' + x for x in core_] + outer[at:]))
+        out.append(_wrap_module('named-do:exit-cycle', ['outer: do i = 1, n', '  inner: do j = 1, n', '    if (i > j) cycle', '    if (j > 3) exit',
+                                                        '    k = k + 1', '  end do inner', 'end do outer']))
+        out.append(_wrap_module('named-do-while', ['wl: do while (k < 30)', '  k = k + 1', '  if (k == 7) exit', '  if (f) cycle', '  n = n + 1', 'end do wl']))
+        out.append(_wrap_module('named-do-step', ['st: do i = n, 1, -2', '  k = k + i', 'end do st']))
+        out.append(_wrap_module('named-select', ['sel: select case (k)', 'case (1) sel', '  k = 2', 'case (2:3, 7) sel', '  k = 4', 'case default sel',
+                                                 '  k = 0', 'end select sel']))
+        out.append(_wrap_module('named-select:no-default', ['sel: select case (k)', 'case (:0) sel', '  k = 2', 'case (5:) sel', '  k = 4', 'end select sel']))
+        out.append(_wrap_module('named-associate', ['as: associate (z => k, y => a(2))', '  n = z + y', '  y = z', 'end associate as']))
+        out.append(_wrap_module('named-where', ['wh: where (a > 1)', '  a = 1', 'elsewhere (a < 0) wh', '  a = 2', 'elsewhere wh', '  a = 0', 'end where wh']))
+        deep = (['sel: select case (n)', 'case (1) sel', '  lp: do i = 1, n', '    as: associate (z => k)']
+                + ['      ' + x for x in _named_if('chk', 3, True, 0, rng, stmt='z = z + {}')]
+                + ['    end associate as', '    wl: do while (k < 5)'] + ['      ' + x for x in _named_if('inner', 2, False, 0, rng)]
+                + ['      k = k + 1', '    end do wl', '  end do lp', 'case default sel'] + ['  ' + x for x in _named_if('last', 2, True, 0, rng)] + ['end select sel'])
+        out.append(_wrap_module('nested-named', deep))
+        # constructs the FP frontend may not accept (counted when rejected)
+        out.append(_wrap_module('probe:exit-cycle-name', ['outer: do i = 1, n', '  inner: do j = 1, n', '    if (i > j) cycle outer', '    if (j > 3) exit inner',
+                                                          '    k = k + 1', '  end do inner', 'end do outer']))
+        out.append(_wrap_module('probe:exit-if-name', ['chk: if (k > 1) then', '  if (f) exit chk', '  k = 1', 'end if chk']))
+        out.append(_wrap_module('probe:named-block', ['blk: block', '  integer :: q', '  q = k', '  n = q', 'end block blk']))
+    return out
